@@ -1,5 +1,6 @@
 import Proofs.SrcBlocks
 import Proofs.SrcChain
+import Proofs.SrcCase
 import Proofs.SrcRelRender
 import Proofs.SrcCompileLines
 import Proofs.C10
@@ -375,6 +376,58 @@ theorem if_chain_none_source (P : Prims) (O : OutPrims) (cfg : Cfg) (fs : FS) (f
   simp only [wrapAt, hnone]
   rfl
 
+/-! ## `case` / `when` / `else` -/
+
+/-- **C10 (`case` renders the clause whose value equals the subject), from source bytes.** Let the subject text `s`
+    parse to `subj` and evaluate to `sel`, and the arguments of the `when` tag parse to the value list `es`.
+    `whenRes P env sel es` (Proofs/C10.lean) evaluates the values in order and compares each with the subject
+    (`values.Equal`). For the source `{% case s %}{% when vs %}A{% else %}E{% endcase %}`:
+    * if some value equals the subject, the block succeeds exactly when `A` does (as a template of its own where
+      it stands), with exactly that output;
+    * if none does, the same with the `else` body `E`. -/
+theorem case_when_else_source (P : Prims) (O : OutPrims) (cfg : Cfg) (fs : FS) (fuel : Nat) (line : Nat) (env : Env)
+    (s vs : Bytes) (A E : List Item) (w1 w2 w3 w4 : Ws) (subj : Expr) (es : List Expr) (sel : GoVal)
+    (hg : GoodDelims (Delims.ofList cfg.delims)) (hc : Clean (Delims.ofList cfg.delims) (caseSrc s vs A E w1 w2 w3 w4))
+    (hcA : Clean (Delims.ofList cfg.delims) A) (hcE : Clean (Delims.ofList cfg.delims) E)
+    (hps : parseExprSource s = .ok subj) (hpw : parseStatement kwWhen vs = .ok (.when es))
+    (hA : Compiles (Delims.ofList cfg.delims) A 0) (hE : Compiles (Delims.ofList cfg.delims) E 0)
+    (hsel : evaluate P env subj = .ok sel) :
+    (whenRes P env sel es = .ok true → ∀ out,
+      run P O cfg fs fuel (spell (Delims.ofList cfg.delims) (caseSrc s vs A E w1 w2 w3 w4)) line env = .ok out ↔
+      run P O cfg fs fuel (spell (Delims.ofList cfg.delims) A)
+        (line + countNL ((tg nmCase s w1).spell (Delims.ofList cfg.delims)) + countNL ((tg nmWhen vs w2).spell (Delims.ofList cfg.delims)))
+        env = .ok out) ∧
+    (whenRes P env sel es = .ok false → ∀ out,
+      run P O cfg fs fuel (spell (Delims.ofList cfg.delims) (caseSrc s vs A E w1 w2 w3 w4)) line env = .ok out ↔
+      run P O cfg fs fuel (spell (Delims.ofList cfg.delims) E)
+        (line + countNL ((tg nmCase s w1).spell (Delims.ofList cfg.delims)) + countNL ((tg nmWhen vs w2).spell (Delims.ofList cfg.delims))
+          + countNL (spell (Delims.ofList cfg.delims) A) + countNL ((tg nmElse [] w3).spell (Delims.ofList cfg.delims)))
+        env = .ok out) := by
+  obtain ⟨nA, nE, lw, hnA, hnE, hcomp⟩ := case_compile (Delims.ofList cfg.delims) s vs A E w1 w2 w3 w4 line subj es hps hpw hA hE
+  have hrun : run P O cfg fs fuel (spell (Delims.ofList cfg.delims) (caseSrc s vs A E w1 w2 w3 w4)) line env =
+      runRoot P O cfg fs fuel [.caseB line subj [(some (lw, es), nA), (none, nE)]] env := by
+    rw [run_spell P O cfg fs fuel _ line env hg hc, hcomp]
+    rfl
+  have hnode := case_node_denotation (mkCtx P O cfg fs fuel) line subj [(some (lw, es), nA), (none, nE)] ⟨env, {}⟩ sel hsel
+  constructor
+  · intro hw out
+    rw [hrun, run_spell P O cfg fs fuel A _ env hg hcA, hnA]
+    show _ ↔ runRoot P O cfg fs fuel nA env = .ok out
+    apply runRoot_wrapped_body_ok P O cfg fs fuel _ nA env ⟨line, true⟩
+    rw [hnode]
+    have hw' : whenRes (mkCtx P O cfg fs fuel).P (⟨env, {}⟩ : RS).env sel es = .ok true := hw
+    simp only [wrapAt, renderCases_when, hw']
+    rfl
+  · intro hw out
+    rw [hrun, run_spell P O cfg fs fuel E _ env hg hcE, hnE]
+    show _ ↔ runRoot P O cfg fs fuel nE env = .ok out
+    apply runRoot_wrapped_body_ok P O cfg fs fuel _ nE env ⟨line, true⟩
+    rw [hnode]
+    have hw' : whenRes (mkCtx P O cfg fs fuel).P (⟨env, {}⟩ : RS).env sel es = .ok false := hw
+    simp only [wrapAt, renderCases_when, hw']
+    rw [renderCases]
+    rfl
+
 /-! ## Non-vacuity, on concrete bytes (default delimiters `{{ }} {% %}`) -/
 
 /-- `a{{ y }}` and `b` -/
@@ -508,3 +561,24 @@ example (P : Prims) (O : OutPrims) (fs : FS) (env : Env) :
       (spell Delims.default (unlessElseSrc [116, 114, 117, 101] [.text [10]] [ob [121]] Ws.std Ws.std Ws.std)) 1 env) :=
   if_else_unless_dual_up_to_line_source P O strictCfg fs 1 1 env (by decide) [116, 114, 117, 101] [ob [121]] [.text [10]]
     Ws.std Ws.std Ws.std Ws.std Ws.std Ws.std (by decide) (by decide) (by decide) (by decide) (by decide) (by decide) (by decide)
+
+/-! ### Non-vacuity of `case_when_else_source`
+
+A value layer in which two Go `int`s are equal when they are the same number. `{% case 1 %}{% when 2, 1 %}a{{ y }}{% else %}b{% endcase %}`:
+the second value equals the subject, so the block renders what `a{{ y }}` renders. -/
+def c10Prims : Prims :=
+  { equal := fun _ _ => .ok false, less := fun _ _ => .ok false, contains := fun _ _ => .ok false,
+    equalFn := fun a b => match a, b with | .int _ x, .int _ y => .ok (x == y) | _, _ => .ok false,
+    applyFilter := fun _ v _ => .ok v, hasFilter := fun _ => false }
+
+example : spell Delims.default (caseSrc [49] [50, 44, 32, 49] c10A c10B Ws.std Ws.std Ws.std Ws.std) =
+    [123, 37, 32, 99, 97, 115, 101, 32, 49, 32, 37, 125, 123, 37, 32, 119, 104, 101, 110, 32, 50, 44, 32, 49, 32, 37, 125,
+     97, 123, 123, 32, 121, 32, 125, 125, 123, 37, 32, 101, 108, 115, 101, 32, 37, 125, 98,
+     123, 37, 32, 101, 110, 100, 99, 97, 115, 101, 32, 37, 125] := by decide
+
+example (O : OutPrims) (fs : FS) (env : Env) (out : Bytes) :
+    run c10Prims O {} fs 1 (spell Delims.default (caseSrc [49] [50, 44, 32, 49] c10A c10B Ws.std Ws.std Ws.std Ws.std)) 1 env = .ok out ↔
+    run c10Prims O {} fs 1 (spell Delims.default c10A) 1 env = .ok out :=
+  (case_when_else_source c10Prims O {} fs 1 1 env [49] [50, 44, 32, 49] c10A c10B Ws.std Ws.std Ws.std Ws.std
+    (.lit (.int .int 1)) [.lit (.int .int 2), .lit (.int .int 1)] (.int .int 1) (by decide) (by decide) (by decide) (by decide)
+    rfl rfl (by decide) (by decide) rfl).1 rfl out
